@@ -2,11 +2,10 @@
    the evaluator has the meaning of the input, for every option vector with the two lossy switches off,
    every clock oracle and every input image (any size, colour type, depth, interlacing).
    Built from the per-transformation theorems through the generic invariant of ReductionInv.v.
-   The transformations whose image-level theorem is not yet proved in Coq are explicit hypotheses
-   (record [leaves]); everything else is proved. *)
+   Every transformation's image-level theorem is proved; nothing is assumed about the reductions. *)
 From OxiVerif Require Import Base.Common Spec.Adam7 Spec.Sem Model.Types Model.Options Model.ScanLines Model.Interlace
   Model.BitDepth Model.Color Model.Palette Model.Reductions
-  Proofs.Bridge Proofs.PixelProofs Proofs.ImageLift Proofs.LiftReductions Proofs.LiftColor Proofs.LiftPalette Proofs.LiftLines Proofs.LiftBits Proofs.LiftInterlace Proofs.LiftDeinterlace Proofs.LiftMzeng Proofs.ReductionInv.
+  Proofs.Bridge Proofs.PixelProofs Proofs.ImageLift Proofs.LiftReductions Proofs.LiftColor Proofs.LiftPalette Proofs.LiftLines Proofs.LiftBits Proofs.LiftInterlace Proofs.LiftDeinterlace Proofs.LiftMzeng Proofs.LiftBattiato Proofs.ReductionInv.
 
 (* the invariant: well-formed and means [pic] *)
 Definition means (pic : picture) (i : image) : Prop := wf i /\ sem i = Some pic.
@@ -47,15 +46,14 @@ Proof.
   - cbn [data hdr ctype depth with_ctype with_depth]. apply wf_ctype_16_to_8; [exact Hk|]. rewrite <- Hd. exact Hwfc.
 Qed.
 
-(* ---------------------------------------------------------------- what is still assumed *)
-Record leaves : Prop := {
-  leaf_battiato : forall i r pic, means pic i -> sorted_palette_battiato i = Ok (Some r) -> means pic r
-}.
+(* ---------------------------------------------------------------- the two co-occurrence sorters (proved in LiftMzeng / LiftBattiato) *)
+Lemma leaf_battiato i r pic : means pic i -> sorted_palette_battiato i = Ok (Some r) -> means pic r.
+Proof. intros [Hwf Hsem] H. destruct (sorted_palette_battiato_sem i r pic Hwf Hsem H). split; assumption. Qed.
 
-Lemma leaf_mzeng (L : leaves) i r pic : means pic i -> sorted_palette_mzeng i = Ok (Some r) -> means pic r.
+Lemma leaf_mzeng i r pic : means pic i -> sorted_palette_mzeng i = Ok (Some r) -> means pic r.
 Proof. intros [Hwf Hsem] H. destruct (sorted_palette_mzeng_sem i r pic Hwf Hsem H). split; assumption. Qed.
 
-Lemma leaf_interlace (L : leaves) i il r pic : means pic i -> change_interlacing i il = Ok (Some r) -> means pic r.
+Lemma leaf_interlace i il r pic : means pic i -> change_interlacing i il = Ok (Some r) -> means pic r.
 Proof.
   intros [Hwf Hsem] H. unfold change_interlacing in H.
   destruct (Bool.eqb il (interlaced (hdr i))) eqn:E; [discriminate|].
@@ -71,7 +69,7 @@ Qed.
 Definition cand_means (pic : picture) (ev : rd_event) : Prop :=
   match ev with EvSubmit i _ => means pic i | _ => True end.
 
-Theorem perform_reductions_lossless_partial (L : leaves) e o img pic baseline evs :
+Theorem perform_reductions_lossless_partial e o img pic baseline evs :
   optimize_alpha o = false -> scale_16 o = false ->
   means pic img ->
   perform_reductions e o img = Ok (baseline, evs) ->
@@ -113,7 +111,7 @@ Qed.
 Definition cand_ameans (pic : picture) (ev : rd_event) : Prop :=
   match ev with EvSubmit i _ => ameans pic i | _ => True end.
 
-Theorem perform_reductions_alpha_partial (L : leaves) e o img pic baseline evs :
+Theorem perform_reductions_alpha_partial e o img pic baseline evs :
   scale_16 o = false ->
   ameans pic img ->
   perform_reductions e o img = Ok (baseline, evs) ->
@@ -150,20 +148,20 @@ From OxiVerif Require Import Model.Evaluate Model.Optimize Proofs.EffectProofs P
 
 (* the image of the candidate chosen by optimize_raw (whatever the evaluator schedule, the compressor and the clock did) means
    what the input means *)
-Theorem optimize_raw_lossless_partial (L : leaves) e o img max_size c pic :
+Theorem optimize_raw_lossless_partial e o img max_size c pic :
   optimize_alpha o = false -> scale_16 o = false -> means pic img ->
   optimize_raw e o img max_size = Ok (Some c) -> means pic (c_image c).
 Proof.
   intros Ha Hs Hm H. apply (emitted_satisfies (means pic) e o img max_size c); [|exact H].
-  intros b evs Hpr. destruct (perform_reductions_lossless_partial L e o img pic b evs Ha Hs Hm Hpr) as [Hb Hevs].
+  intros b evs Hpr. destruct (perform_reductions_lossless_partial e o img pic b evs Ha Hs Hm Hpr) as [Hb Hevs].
   split; [exact Hb|]. eapply Forall_impl; [|exact Hevs]. intros ev Hev. destruct ev; exact Hev.
 Qed.
 
-Theorem optimize_raw_alpha_partial (L : leaves) e o img max_size c pic :
+Theorem optimize_raw_alpha_partial e o img max_size c pic :
   scale_16 o = false -> ameans pic img ->
   optimize_raw e o img max_size = Ok (Some c) -> ameans pic (c_image c).
 Proof.
   intros Hs Hm H. apply (emitted_satisfies (ameans pic) e o img max_size c); [|exact H].
-  intros b evs Hpr. destruct (perform_reductions_alpha_partial L e o img pic b evs Hs Hm Hpr) as [Hb Hevs].
+  intros b evs Hpr. destruct (perform_reductions_alpha_partial e o img pic b evs Hs Hm Hpr) as [Hb Hevs].
   split; [exact Hb|]. eapply Forall_impl; [|exact Hevs]. intros ev Hev. destruct ev; exact Hev.
 Qed.
